@@ -6,6 +6,7 @@ import KafkaVerif.Lemmas.WriterClose
 import KafkaVerif.Lemmas.WriterTrack
 import KafkaVerif.Model.ReaderClose
 import KafkaVerif.Lemmas.ReaderClose
+import KafkaVerif.Lemmas.GroupRunMeasure
 
 namespace KV.C09
 open KV.WriterClose
@@ -422,5 +423,69 @@ theorem reader_close_progress_partial (g : Bool) (s : State) (hr : Reachable g s
           · exact ⟨.leave m, by simp, by simp [step, h1, hgen, hmem, hcn]⟩
           · exact ⟨.coordOpen, by simp, by simp [step, h1]⟩
         · exfalso; exact absurd (reachable_loop_le g s hr) (by omega)
+
+end KV.C09
+
+/-! ## Termination of Reader / ConsumerGroup close -/
+namespace KV.C09
+open KV.ReaderClose
+
+/-- work left on the closing side of a Reader -/
+def closeNu (s : State) : Nat :=
+  s.fetchers + s.conns + s.loop + (if s.gen then 1 else 0) + (if s.member.isSome then 1 else 0) +
+  (if s.msgsClosed then 0 else 1) + (3 - s.close)
+
+/-- the steps by which a Reader shuts down -/
+def closingStep : Event → Bool
+  | .closeMark | .closeMsgs | .closeReturn | .fetcherExit | .connClose | .genEnd | .leave _ | .loopExit => true
+  | _ => false
+
+/-- **reader_close_terminates** (Reader side) — every shut-down step of `Reader.Close` (stop mark, fetcher exit,
+connection close, generation end, LeaveGroup, exit of the group loop, close of `msgs`, return) strictly decreases
+`closeNu`, and while Close waits one of them (or the opening of the connection LeaveGroup needs) is enabled
+(`reader_close_progress_partial`).  The only events that can increase `closeNu` after the mark are connection opens:
+by a fetcher that is still alive (`dial`, bounded by `fetchers`: a cancelled fetcher does not redial) and by the
+group loop (`coordOpen`), whose own steps are bounded by `group_run_terminates` below. -/
+theorem reader_close_terminates (s s' : State) (e : Event) (he : closingStep e = true) (hs : step s e = some s')
+    (hcl : s.close ≤ 3) : closeNu s' < closeNu s := by
+  cases e <;> simp only [closingStep] at he <;> try contradiction
+  all_goals
+    simp only [step, Option.ite_none_right_eq_some, Option.some.injEq] at hs
+    obtain ⟨hg, rfl⟩ := hs
+    (try simp only [Bool.and_eq_true, decide_eq_true_eq, Bool.not_eq_true'] at hg)
+    simp only [closeNu]
+    (try simp_all)
+    (try omega)
+
+example : closeNu (State.init true) = 5 := by decide
+
+end KV.C09
+
+namespace KV.C09
+open KV.Group
+
+/-- **group_run_terminates** — `ConsumerGroup.run` (GroupRun model of the group builder: phases of
+`nextGeneration`, `leaveGroup`, error delivery, back-off): every step of the `run` goroutine strictly decreases
+`runMu = nextWaiting · (nWatch+40) + rank pc`, and no other event except a new `Next` call of the application
+increases it.  After `Close` a `Next` call returns ErrGroupClosed, so the goroutine makes at most
+`runMu` further steps before it is `exited` — the only state in which `closeRet` is enabled. -/
+theorem group_run_terminates (c : Group.Cfg) (s s' : St) (e : Ev) (h : Group.step c s e = some s') :
+    (e.runLoop = true → runMu c s' < runMu c s) ∧ (e ≠ .nextCall → runMu c s' ≤ runMu c s) ∧
+    (e = .closeRet → s.pc = .exited) := by
+  refine ⟨fun he => runMu_decreases c s s' e he h, fun hn => runMu_le c s s' e hn h, ?_⟩
+  rintro rfl
+  simp only [Group.step, Option.ite_none_right_eq_some, Bool.and_eq_true, beq_iff_eq] at h
+  exact h.1.1
+
+/-- **group_run_progress_partial** — once the group is closed the `run` goroutine always has an enabled step of
+its own (the coordinator answers it waits for count as such: every network call returns), except inside
+`gen.close()` (waits for the generation's functions: C15 `close_returns_after_all_exits`) and while it starts the
+generation's internal functions.  Partial: those two phases, and the structural facts `coord stage ≤ 2`, `a
+generation exists` are hypotheses here (they are invariants of C15's model). -/
+theorem group_run_progress_partial (c : Group.Cfg) (s : St) (hc : s.closedCG = true) (hx : s.pc ≠ .exited)
+    (hw : ∀ ret r, s.pc ≠ .waiting ret r) (hs : ∀ k, s.pc ≠ .starting k) (hcur : 0 < s.gens)
+    (hk : ∀ k lv, s.pc = .coord k lv → k ≤ 2) :
+    ∃ e, e.runLoop = true ∧ (Group.step c s e).isSome :=
+  run_progress_when_closed c s hc hx hw hs hcur hk
 
 end KV.C09
